@@ -11,6 +11,7 @@ import (
 	"strings"
 
 	"github.com/tetratelabs/wazero/internal/leb128"
+	"github.com/tetratelabs/wazero/verifharness/allops"
 	"github.com/tetratelabs/wazero/verifharness/gen"
 	"github.com/tetratelabs/wazero/verifharness/hx"
 )
@@ -532,6 +533,16 @@ func fuzz(r *rand.Rand, par, n int, only string) {
 			c := mkCase(fmt.Sprintf("invalid-%d", i), "invalid-by-construction", iv.feat, iv.bin, iv.rule)
 			c.MustReject = true
 			c.Mode = "compile"
+			add(c)
+		}
+	}
+	if only != "fuzz" {
+		// every instruction wazero knows in live code, each in TWO functions of one module (per-function state of a
+		// back end that survives into the next function): must be accepted and compiled by both engines
+		for _, n := range []int{1, 2} {
+			ab, _ := allops.ModuleCopies(n)
+			c := mkCase(fmt.Sprintf("allops-x%d", n), "allops", "v2x", ab, "all-instructions")
+			c.MustAccept = true
 			add(c)
 		}
 	}
